@@ -503,6 +503,9 @@ func genPlan(g *prng, flavour string) sessPlan {
 }
 
 // runSession executes one plan under the scheduler and returns the history.
+// site-level trace of the last session (P/A/G/E lines)
+var lastTlog []string
+
 func runSession(g *prng, p sessPlan, script []string) (hist []string, trace []string, steps int) {
 	r := newSchedRun(g)
 	r.script = script
@@ -701,6 +704,7 @@ func runSession(g *prng, p sessPlan, script []string) (hist []string, trace []st
 	}
 	r.finish()
 	synctest.Wait()
+	lastTlog = append([]string(nil), r.s.tlog...)
 	for _, e := range s.ep {
 		if e != nil {
 			r.ev("obsfinal %d %s", e.id, errClass(e.srv.Err()))
@@ -761,6 +765,9 @@ func init() {
 				c.note("%s scen=%d steps=%d ops=%d closer=%s pct=%v force=%d inj=%d", fl, i, steps, len(plan.ops), plan.closer, plan.pct, plan.forceAt, len(plan.inject))
 				c.op("mon %d %s", plan.max, strings.Join(hist, " ; "))
 				c.res("ok")
+				if os.Getenv("VERIF_TLOG") != "" {
+					fmt.Printf("TLOG %d %s\n%s\n", i, fl, strings.Join(lastTlog, "\n"))
+				}
 				if os.Getenv("VERIF_TRACE") != "" {
 					fmt.Printf("TRACE %d %s\n", i, strings.Join(trace, " "))
 				}
